@@ -3,7 +3,42 @@ RESOLVE_TB = [
     "modelled, not verified: per-operation verdicts of the lower layers (parse, reveal, signature, delta hash/validity, patch result) "
     "are facts fixed by construction of each generated request; sort.Slice/SliceStable trusted to sort for a strict weak order",
 ]
+RESOLVE_DIRS = ["Parser/Window", "Resolve", "Corr/Resolve", "Corr/Intake", "Corr/MetaOps", "Base"]
+
+
+def resolve_prop(cmd, seed, rule, extra_dirs=(), assumptions=()):
+    return {"cmd": cmd, "seed": seed, "gentie": 0, "coq_dirs": RESOLVE_DIRS + list(extra_dirs) + ["Props/" + cmd.upper()],
+            "rule": rule, "trusted_base": RESOLVE_TB, "assumptions": list(assumptions)}
+
+
 PROPS = {
+    "C01": resolve_prop("c01", 101,
+        "legitimate commitment chains (keys of all 5 types, both hash algorithms) with unauthorised update/recover/deactivate operations "
+        "(other key revealed, forged signature, flipped signature bit, re-encoded payload, reveal/signing-key mismatch) and duplicate "
+        "creates (same request, other delta, no delta) interleaved at random anchoring positions; each history is resolved with and "
+        "without the extras (metamorphic oracle) and compared with the model; non-trivial = at least one extra; distinct by letter "
+        "sequence and result"),
+    "C02": resolve_prop("c02", 102,
+        "histories with competing operations per commitment, duplicate creates and unpublished operations; (time, number) drawn so that "
+        "non-monotone pairs and shared times occur; every permutation of the published store for n<=5 (30 random ones above); all orders "
+        "must agree (oracle on the implementation) and equal the model; plus metadata published-operation lists for permuted input; "
+        "non-trivial = more than 2 published operations; distinct by letters and store order"),
+    "C03": resolve_prop("c03", 103,
+        "random histories (length 1-30) over the whole operation alphabet: valid, forked, failing/invalid/mismatching delta, in/out of "
+        "window (explicit and default), replayed, cyclic, forged, duplicate creates, unpublished tail; every state field and the returned "
+        "operation lists compared with the model; non-trivial = more than 2 operations; distinct by letter sequence and result"),
+    "C04": resolve_prop("c04", 104,
+        "histories ending in a valid deactivate (60%) or containing recovers, extended by 1-6 later operations (forged, validly signed "
+        "with earlier keys, creates, replays); extended vs. base result compared (oracle on the implementation), model comparison, and "
+        "DocumentHandler.ProcessOperation with the default decorator for every non-create extension of a deactivated DID; "
+        "non-trivial = has an extension"),
+    "C06": resolve_prop("c06", 106,
+        "histories x every cut time (each operation time, +-1) and every canonical reference plus an unknown one, store order shuffled; "
+        "Resolve(WithVersionTime/ID) over the full store vs Resolve over the truncated store (oracle on the implementation) and vs the model"),
+    "C12": resolve_prop("c12", 112,
+        "histories with a self-loop or a commitment cycle of length 2-5 in the update or recovery chain after 0-3 legitimate updates, "
+        "optionally with an escape operation; must terminate (20 s bound) and equal the model; plus Parse(batch=false) over every pairing "
+        "of revealed key and next commitments x both hash algorithms for update, recover and create"),
     "C05": {
         "cmd": "c05", "seed": 5, "gentie": 0,
         "coq_dirs": ["Parser/Window", "Resolve", "Corr/Resolve", "Corr/Window", "Props/C05", "GenTie/Window"],
